@@ -70,9 +70,17 @@ Proof. vm_compute; reflexivity. Qed.
    Model : Parse/Fields.v `fields_of_packet p` -- the same list through the ACCESSOR models
            of Parse/Access.v (C01) applied to the slices stored in the strict result.
    For every byte string: when the strict slicer accepts, (1) the reference decoder accepts
-   with exactly the layers / windows of the result (C03 above) and (2) every accessor of every
-   layer returns the field of the format at that layer's absolute position.  All layer kinds
-   are covered (nothing `_partial`). *)
+   with exactly the layers / windows of the result (C03 above) and (2) every RAW HEADER-FIELD
+   accessor of every layer (the accessors to_header() reads; list: notes/C03.md section 3)
+   returns the field of the format at that layer's absolute position.  All layer kinds are
+   covered (nothing `_partial`).  Three fields have no slice accessor and are derived: MACsec V
+   (bit 0x80 of tci_an_raw()), AH payload length and the extension length octet (to_header()).
+   Derived / typed accessors (MacsecHeaderSlice::ptype / next_ether_type / header_len /
+   expected_payload_len / is_unmodified, Ipv4HeaderSlice::payload_len / is_fragmenting_payload,
+   Ipv6HeaderSlice::dscp / ecn, Ipv6FragmentHeaderSlice::is_fragmenting_payload,
+   LinuxSllHeaderSlice::sender_address, Ethernet2Slice::fcs, payload() / payload_slice() /
+   header_slice(), UdpSlice::payload_len_source, icmp_type() / header() / header_len()) are not
+   in the field theorem: their windows are C01_windows_inside, typed readings C17 / C13. *)
 From EP Require Import Parse.Access Parse.Fields Parse.FieldsProofs.
 
 Theorem C03_fields_from_ethernet : forall bs p, bytes_ok bs ->
@@ -162,3 +170,252 @@ Example C03_fields_ex_et :
                   (Ftarget_proto, FvBytes [10; 0; 0; 2])])] /\
     fields_of_packet p = Ok (spec_fields ex_et (view p)).
 Proof. eexists. split; [vm_compute; reflexivity|split; vm_compute; reflexivity]. Qed.
+
+(* ==== audit round 1 follow-up: two clauses that were true "by inspection of the trusted
+   reference decoder" only, now theorems ABOUT it (Parse/WireNested.v, Parse/WireSpecFacts.v)
+   and, through the refinement above, about the model of SlicedPacket =====================
+
+   (1) "Payloads are cut to the innermost applicable length field ... and never extend past
+   it": `nested bs v` walks the view from the outside in; `cur` is the window of the data
+   available to the next layer (already cut by every outer length field).  Each layer starts
+   at the start of `cur`, ends inside it, and hands a payload window to the next layer that
+   ends where its own length field says (MACsec short length, IPv4 total length, IPv6 payload
+   length, UDP length; 0 = the end of `cur`).  The clauses per layer kind are pinned below
+   (`C03_nested_pin_X`, by `eq_refl`).  `nested_inside`: every window of a nested view lies
+   inside [0, len bs).
+
+   (2) "Slicing fails exactly when a header is cut short, a length field claims more bytes
+   than are present or fewer than its own header, or a documented content rule is violated":
+   `classify bs err` decides, from the error and the bytes at the failing layer's offset, which
+   of these causes the rejection has; it is total on the rejections of the reference decoder.
+   Two causes of the reference decoder are NOT in the property's list and have their own
+   classes: EcIcmpv4TimestampSize (an ICMPv4 timestamp / timestamp reply message that is not
+   exactly 20 bytes long -- crate rule) and EcIcmpv6TooLong (ICMPv6 longer than 2^32-1). *)
+From EP Require Import Parse.WireSpecFacts Parse.WireNested Parse.StrictFacts.
+
+(* ---- (1) nesting ---- *)
+Theorem C03_wire_nested : forall bs et v,
+  (wire_ethernet bs = VOk v -> nested bs v) /\
+  (wire_linux_sll bs = VOk v -> nested bs v) /\
+  (wire_ether_type bs et = VOk v -> nested bs v) /\
+  (wire_from_ip bs = VOk v -> nested bs v).
+Proof. exact wire_nested. Qed.
+Print Assumptions C03_wire_nested.
+
+Theorem C03_nested_inside : forall bs v,
+  nested bs v -> Forall (fun w => fst w + snd w <= len bs) (vwindows v).
+Proof. exact nested_inside. Qed.
+Print Assumptions C03_nested_inside.
+
+Theorem C03_nested_from_ethernet : forall bs p, bytes_ok bs ->
+  SlicedPacket.from_ethernet bs = Ok p ->
+  wire_ethernet bs = VOk (view p) /\ nested bs (view p) /\ Forall (inside bs) (vwindows (view p)).
+Proof. exact (fun bs p H => strict_nested_from_ethernet bs H p). Qed.
+Print Assumptions C03_nested_from_ethernet.
+
+Theorem C03_nested_from_linux_sll : forall bs p, bytes_ok bs ->
+  SlicedPacket.from_linux_sll bs = Ok p ->
+  wire_linux_sll bs = VOk (view p) /\ nested bs (view p) /\ Forall (inside bs) (vwindows (view p)).
+Proof. exact (fun bs p H => strict_nested_from_linux_sll bs H p). Qed.
+Print Assumptions C03_nested_from_linux_sll.
+
+Theorem C03_nested_from_ether_type : forall bs et p, bytes_ok bs ->
+  SlicedPacket.from_ether_type et bs = Ok p ->
+  wire_ether_type bs et = VOk (view p) /\ nested bs (view p) /\ Forall (inside bs) (vwindows (view p)).
+Proof. exact (fun bs et p H => strict_nested_from_ether_type bs et H p). Qed.
+Print Assumptions C03_nested_from_ether_type.
+
+Theorem C03_nested_from_ip : forall bs p, bytes_ok bs ->
+  SlicedPacket.from_ip bs = Ok p ->
+  wire_from_ip bs = VOk (view p) /\ nested bs (view p) /\ Forall (inside bs) (vwindows (view p)).
+Proof. exact (fun bs p H => strict_nested_from_ip bs H p). Qed.
+Print Assumptions C03_nested_from_ip.
+
+(* what `nested` says, layer kind by layer kind (definitional unfoldings) *)
+Example C03_nested_pin : forall bs v,
+  nested bs v =
+  (link_ok bs (v_link v) /\
+   exts_nested bs (link_payload bs (v_link v)) (v_exts v) /\
+   match v_net v with
+   | None => True
+   | Some nn => net_ok bs (exts_final (link_payload bs (v_link v)) (v_exts v)) nn
+   end /\
+   tr_nested bs (v_net v) (v_transport v)).
+Proof. reflexivity. Qed.
+Example C03_nested_pin_exts : forall bs cur x r,
+  exts_nested bs cur (x :: r) = (ext_ok bs cur x /\ exts_nested bs (ext_payload x) r) /\
+  exts_final cur (x :: r) = exts_final (ext_payload x) r /\ exts_final cur [] = cur.
+Proof. repeat split. Qed.
+Example C03_nested_pin_link : forall bs w h e,
+  link_ok bs (Some (VEthernet2 w)) = (w = (0, len bs) /\ 14 <= len bs) /\
+  link_payload bs (Some (VEthernet2 w)) = (fst w + 14, snd w - 14) /\
+  link_ok bs (Some (VLinuxSll h w)) = (h = (0, 16) /\ w = (0, len bs) /\ 16 <= len bs) /\
+  link_payload bs (Some (VLinuxSll h w)) = (fst w + snd h, snd w - snd h) /\
+  link_ok bs (Some (VEtherPayload e)) = (vep_win e = (0, len bs) /\ vep_src e = LsSlice) /\
+  link_payload bs (Some (VEtherPayload e)) = vep_win e /\
+  link_payload bs None = (0, len bs).
+Proof. repeat split. Qed.
+Example C03_nested_pin_vlan : forall bs cur w,
+  ext_ok bs cur (VVlan w) = (w = cur /\ 4 <= snd w) /\
+  ext_payload (VVlan w) = (fst w + 4, snd w - 4).
+Proof. repeat split. Qed.
+Example C03_nested_pin_macsec : forall bs cur h p,
+  ext_ok bs cur (VMacsec h p) =
+  (let tci := B bs (fst h) in
+   let sl := B bs (fst h + 1) mod 64 in
+   let pw := match p with VMpUnmodified e => vep_win e | VMpModified w => w end in
+   fst h = fst cur /\
+   snd h = 6 + (if (tci / 4) mod 4 =? 0 then 2 else 0) + (if negb ((tci / 32) mod 2 =? 0) then 8 else 0) /\
+   fst pw = fst h + snd h /\ fst pw + snd pw <= fst cur + snd cur /\
+   (sl = 0 -> fst pw + snd pw = fst cur + snd cur) /\
+   (0 < sl -> fst pw + snd pw = fst h + snd h + (if (tci / 4) mod 4 =? 0 then sl - 2 else sl)) /\
+   match p with
+   | VMpUnmodified e =>
+       (tci / 4) mod 4 = 0 /\ vep_type e = W bs (fst h + snd h - 2) /\
+       vep_src e = (if sl =? 0 then LsSlice else LsMacsecShortLength)
+   | VMpModified _ => (tci / 4) mod 4 <> 0
+   end) /\
+  ext_payload (VMacsec h p) = match p with VMpUnmodified e => vep_win e | VMpModified w => w end.
+Proof. repeat split. Qed.
+Example C03_nested_pin_ipv4 : forall bs cur h auth p,
+  net_ok bs cur (VIpv4 h auth p) =
+  (let pos := fst h in
+   let tl := W bs (pos + 2) in
+   fst h = fst cur /\ snd h = (B bs pos mod 16) * 4 /\ 20 <= snd h /\
+   pos + tl <= fst cur + snd cur /\
+   match auth with
+   | None => fst (vip_win p) = fst h + snd h
+   | Some a => fst a = fst h + snd h /\ snd a = (B bs (fst a + 1) + 2) * 4 /\
+               fst (vip_win p) = fst a + snd a
+   end /\
+   fst (vip_win p) + snd (vip_win p) = pos + tl /\ vip_src p = LsIpv4HeaderTotalLen).
+Proof. reflexivity. Qed.
+Example C03_nested_pin_ipv6 : forall bs cur h first frag x p,
+  net_ok bs cur (VIpv6 h first frag x p) =
+  (let pos := fst h in
+   let pl := W bs (pos + 4) in
+   fst h = fst cur /\ snd h = 40 /\ fst x = fst h + snd h /\ fst (vip_win p) = fst x + snd x /\
+   fst (vip_win p) + snd (vip_win p) <= fst cur + snd cur /\
+   (pl = 0 -> fst (vip_win p) + snd (vip_win p) = fst cur + snd cur) /\
+   (0 < pl -> fst (vip_win p) + snd (vip_win p) = pos + 40 + pl /\
+              vip_src p = LsIpv6HeaderPayloadLen)).
+Proof. reflexivity. Qed.
+Example C03_nested_pin_arp : forall bs cur w,
+  net_ok bs cur (VArp w) =
+  (fst w = fst cur /\ snd w = 8 + B bs (fst w + 4) * 2 + B bs (fst w + 5) * 2 /\
+   fst w + snd w <= fst cur + snd cur).
+Proof. reflexivity. Qed.
+Example C03_nested_pin_transport : forall bs nn t ipw w hl,
+  tr_nested bs nn (Some t) =
+    match net_payload nn with
+    | Some p => vip_frag p = false /\ tr_ok bs (vip_win p) t
+    | None => False
+    end /\
+  tr_ok bs ipw (VUdp w) =
+    (let l := W bs (fst w + 4) in
+     fst w = fst ipw /\ 8 <= snd w /\ snd w <= snd ipw /\
+     (l = 0 -> snd w = snd ipw) /\ (0 < l -> snd w = l)) /\
+  tr_ok bs ipw (VTcp hl w) =
+    (w = ipw /\ hl = (B bs (fst w + 12) / 16) * 4 /\ 20 <= hl /\ hl <= snd w) /\
+  tr_ok bs ipw (VIcmpv4 w) = (w = ipw /\ 8 <= snd w) /\
+  tr_ok bs ipw (VIcmpv6 w) = (w = ipw /\ 8 <= snd w /\ snd w <= 4294967295).
+Proof. repeat split. Qed.
+
+(* non-vacuity: the packet of C03_ex_ok followed by 3 bytes the IPv4 total length does not
+   cover -- the VLAN window grows to the end of the input, the IP payload and UDP do not *)
+Example C03_nested_ex :
+  wire_ethernet (ex_pkt ++ [9; 9; 9]) =
+    VOk (mkVPacket (Some (VEthernet2 (0, 53))) [VVlan (14, 39)]
+           (Some (VIpv4 (18, 20) None (mkVIp 17 false LsIpv4HeaderTotalLen (38, 12))))
+           (Some (VUdp (38, 12)))) /\
+  vres_of (SlicedPacket.from_ethernet (ex_pkt ++ [9; 9; 9])) = wire_ethernet (ex_pkt ++ [9; 9; 9]).
+Proof. split; vm_compute; reflexivity. Qed.
+
+(* ---- (2) classes of rejections ---- *)
+Theorem C03_wire_err_classes : forall bs et err,
+  (wire_ethernet bs = VErr err -> exists c, classify bs err = Some c) /\
+  (wire_linux_sll bs = VErr err -> exists c, classify bs err = Some c) /\
+  (wire_ether_type bs et = VErr err -> exists c, classify bs err = Some c) /\
+  (wire_from_ip bs = VErr err -> exists c, classify bs err = Some c).
+Proof. exact wire_err_classes. Qed.
+Print Assumptions C03_wire_err_classes.
+
+(* the classes of length errors have the inequality their name says *)
+Theorem C03_class_len_direction : forall bs e c,
+  classify bs (ELen e) = Some c ->
+  len_direction e /\
+  (c = EcHeaderCut \/ c = EcLenFieldBeyond \/ c = EcLenFieldBelowHeader -> le_len e < le_required e) /\
+  (c = EcIcmpv4TimestampSize -> le_required e = 20 /\ le_len e <> 20) /\
+  (c = EcIcmpv6TooLong -> le_required e = 4294967295 /\ 4294967295 < le_len e) /\
+  c <> EcContentRule.
+Proof. exact class_len_direction. Qed.
+Print Assumptions C03_class_len_direction.
+
+(* the model: its rejection has the cause (c03_rel: layer / required / available, or the same
+   content error) of a rejection of the reference decoder, which is in one of the classes *)
+Theorem C03_err_classes_from_ethernet : forall bs err, bytes_ok bs ->
+  SlicedPacket.from_ethernet bs = Err err ->
+  exists serr c, wire_ethernet bs = VErr serr /\ same_cause err serr /\ classify bs serr = Some c.
+Proof. exact (fun bs err H => strict_err_classes_from_ethernet bs 0 H err). Qed.
+Print Assumptions C03_err_classes_from_ethernet.
+
+Theorem C03_err_classes_from_linux_sll : forall bs err, bytes_ok bs ->
+  SlicedPacket.from_linux_sll bs = Err err ->
+  exists serr c, wire_linux_sll bs = VErr serr /\ same_cause err serr /\ classify bs serr = Some c.
+Proof. exact (fun bs err H => strict_err_classes_from_linux_sll bs 0 H err). Qed.
+Print Assumptions C03_err_classes_from_linux_sll.
+
+Theorem C03_err_classes_from_ether_type : forall bs et err, bytes_ok bs ->
+  SlicedPacket.from_ether_type et bs = Err err ->
+  exists serr c, wire_ether_type bs et = VErr serr /\ same_cause err serr /\ classify bs serr = Some c.
+Proof. exact (fun bs et err H => strict_err_classes_from_ether_type bs et H err). Qed.
+Print Assumptions C03_err_classes_from_ether_type.
+
+Theorem C03_err_classes_from_ip : forall bs err, bytes_ok bs ->
+  SlicedPacket.from_ip bs = Err err ->
+  exists serr c, wire_from_ip bs = VErr serr /\ same_cause err serr /\ classify bs serr = Some c.
+Proof. exact (fun bs err H => strict_err_classes_from_ip bs 0 H err). Qed.
+Print Assumptions C03_err_classes_from_ip.
+
+(* what `classify` and `same_cause` say for some representative layers (definitional) *)
+Example C03_classify_pin : forall bs r l s o v,
+  classify bs (ELen (mkLenError r l s LyIpv4Packet o)) =
+    (if (r =? (B bs o mod 16) * 4) && (l =? W bs (o + 2)) && (l <? r) then Some EcLenFieldBelowHeader
+     else if (r =? W bs (o + 2)) && (l <? r) then Some EcLenFieldBeyond else None) /\
+  classify bs (ELen (mkLenError r l s LyIpv6Packet o)) =
+    (if (r =? 40 + W bs (o + 4)) && (l <? r) then Some EcLenFieldBeyond else None) /\
+  classify bs (ELen (mkLenError r l s LyIpv4Header o)) =
+    (if ((r =? 20) || (r =? (B bs o mod 16) * 4)) && (l <? r) then Some EcHeaderCut else None) /\
+  classify bs (ELen (mkLenError r l LsUdpHeaderLen LyUdpHeader o)) =
+    (if (r =? 8) && (l =? W bs (o + 4)) && (0 <? l) && (l <? r) then Some EcLenFieldBelowHeader else None) /\
+  classify bs (ELen (mkLenError r l LsIpv4HeaderTotalLen LyUdpHeader o)) =
+    (if (r =? 8) && (l <? r) then Some EcHeaderCut else None) /\
+  classify bs (ELen (mkLenError r l s LyUdpPayload o)) =
+    (if (r =? W bs (o + 4)) && (l <? r) then Some EcLenFieldBeyond else None) /\
+  classify bs (ELen (mkLenError r l s LyIcmpv4Timestamp o)) =
+    (if (B bs o =? 13) && (B bs (o + 1) =? 0) && (r =? 20) && (8 <=? l) && negb (l =? 20)
+     then Some EcIcmpv4TimestampSize else None) /\
+  classify bs (ELen (mkLenError r l s LyIcmpv6 o)) =
+    (if (r =? 8) && (l <? r) then Some EcHeaderCut
+     else if (r =? 4294967295) && (r <? l) then Some EcIcmpv6TooLong else None) /\
+  classify bs (EContent (CeIpv4Ihl v)) = (if v <? 5 then Some EcContentRule else None) /\
+  classify bs (EContent CeHopByHopNotAtStart) = Some EcContentRule.
+Proof. repeat split. Qed.
+Example C03_same_cause_pin : forall a b c d,
+  same_cause (ELen a) (ELen b) =
+    (le_layer a = le_layer b /\ le_required a = le_required b /\ le_len a = le_len b) /\
+  same_cause (EContent c) (EContent d) = (c = d) /\
+  same_cause (ELen a) (EContent d) = False /\ same_cause (EContent c) (ELen b) = False.
+Proof. repeat split. Qed.
+
+(* non-vacuity: the rejection of C03_ex_cut (IPv4 total length 32, 23 bytes present) is
+   "a length field claims more than is present"; a UDP length field of 5 is "smaller than
+   its own header" *)
+Example C03_classes_ex :
+  classify (firstn 41 ex_pkt) (ELen (mkLenError 32 23 LsSlice LyIpv4Packet 18)) = Some EcLenFieldBeyond /\
+  wire_ethernet (firstn 41 ex_pkt) = VErr (ELen (mkLenError 32 23 LsSlice LyIpv4Packet 18)) /\
+  (let bs := firstn 42 ex_pkt ++ [0; 5] ++ skipn 44 ex_pkt in
+   wire_ethernet bs = VErr (ELen (mkLenError 8 5 LsUdpHeaderLen LyUdpHeader 38)) /\
+   vres_of (SlicedPacket.from_ethernet bs) = wire_ethernet bs /\
+   classify bs (ELen (mkLenError 8 5 LsUdpHeaderLen LyUdpHeader 38)) = Some EcLenFieldBelowHeader).
+Proof. repeat split; vm_compute; reflexivity. Qed.
